@@ -10,6 +10,10 @@ class Boom(Exception):
     pass
 
 
+class BoomBase(BaseException):
+    """a failure that is not an Exception (what Ctrl-C or sys.exit() inside the source pipeline looks like)"""
+
+
 class BoomType(Boom, TypeError):
     """a source failure that is also a TypeError (loaders must not mistake it for a driver complaint)"""
 
@@ -141,7 +145,7 @@ def run(ctx):
             c0.executemany('INSERT INTO t VALUES (?, ?)', prior)
             c0.commit()
             c0.close()
-            src = Source(rows, fail, BoomType if n % 2 else Boom)
+            src = Source(rows, fail, [Boom, BoomType, BoomBase][n % 3])
             fn = etl.todb if trunc else etl.appenddb
             conn = None
             raised = None
@@ -152,7 +156,7 @@ def run(ctx):
                     conn = RecConn(path)
                     dbo = conn if handle == 'connection' else (conn.cursor() if handle == 'cursor' else (lambda conn=conn: conn.cursor()))
                     fn(src, dbo, 't', commit=commit)
-            except Boom:
+            except (Boom, BoomBase):
                 raised = 'Boom'
             except Exception as e:   # noqa
                 raised = type(e).__name__
@@ -231,6 +235,47 @@ def run(ctx):
                             elif seen != want:
                                 ctx.spec_fail('%s|%s|staging|%s' % (fn.__name__, handle, 'partial-or-emptied' if fail is not None else 'wrong-state'),
                                               'source read through fromdb on the same connection: a fresh connection does not see what the property prescribes', case)
+        # ---- schema=: the table named is the one replaced / extended, also when another schema of the connection has a table of
+        # the same name that sqlite would resolve first (a TEMP table, main before an attached database)
+        for ci in range(24 if ctx.thorough() else 8):
+            pm = os.path.join(tmpd, 'schema_main_%d.sqlite' % ci)
+            pa = os.path.join(tmpd, 'schema_aux_%d.sqlite' % ci)
+            for pth in (pm, pa):
+                if os.path.exists(pth):
+                    os.unlink(pth)
+                c0 = sqlite3.connect(pth)
+                c0.execute('CREATE TABLE t (a, b)')
+                c0.executemany('INSERT INTO t VALUES (?, ?)', [('p', 1), ('q', 2)])
+                c0.commit()
+                c0.close()
+            conn = sqlite3.connect(pm)
+            conn.execute("ATTACH DATABASE '%s' AS aux1" % pa)
+            conn.execute('CREATE TEMP TABLE t (a, b)')
+            conn.execute("INSERT INTO temp.t VALUES ('tmp', 0)")
+            conn.commit()
+            schema = ['main', 'aux1', 'temp', None][ci % 4]
+            trunc = (ci // 4) % 2 == 0
+            rows = [('a', 'b')] + [('r%d' % i, i) for i in range(ctx.rng.choice([0, 1, 3]))]
+            before = {sc: conn.execute('SELECT * FROM %s.t' % sc).fetchall() for sc in ('main', 'aux1', 'temp')}
+            kind = ['connection', 'cursor', 'mkcurs'][ci % 3]
+            dbo = conn if kind == 'connection' else (conn.cursor() if kind == 'cursor' else (lambda conn=conn: conn.cursor()))
+            try:
+                (etl.todb if trunc else etl.appenddb)(rows, dbo, 't', **({} if schema is None else {'schema': schema}))
+                err = None
+            except Exception as e:   # noqa
+                err = type(e).__name__
+            after = {sc: conn.execute('SELECT * FROM %s.t' % sc).fetchall() for sc in ('main', 'aux1', 'temp')}
+            conn.close()
+            target = schema or 'temp'        # unqualified: sqlite resolves the TEMP table first
+            want = dict(before)
+            want[target] = ([] if trunc else before[target]) + [tuple(r) for r in rows[1:]]
+            ctx.case(('schema', schema, trunc, kind, len(rows)))
+            ctx.count('schema-qualified')
+            if err is not None or after != want:
+                ctx.spec_fail('%s|schema|wrong-table' % ('todb' if trunc else 'appenddb'),
+                              'with schema=%r the load did not replace / extend exactly the table named' % schema,
+                              {'op': 'todb' if trunc else 'appenddb', 'schema': schema, 'handle': kind, 'rows': repr(rows), 'error': err,
+                               'before': repr(before), 'after': repr(after), 'want': repr(want)})
     finally:
         shutil.rmtree(tmpd, ignore_errors=True)
     ctx.exhaustive = True
